@@ -1,0 +1,7 @@
+//go:build !verif
+
+package evaluator
+
+func verifMap(string, *mapVal, string) {}
+
+func verifEv(string, string) {}
